@@ -154,6 +154,10 @@ def fam_default():
     }
     for n, fs in groups.items():
         out.append({'sd': StructDef(n, fs, has_init=True), 'kinds': ['codec']})
+    # values sharing storage with the declared default (a prefix of the default literal): equality with the default is
+    # a comparison of contents AND length, never of addresses
+    al = StructDef('DfAl', [Field(1, 'optional', S('string'), default='"dflt"'), Field(3, 'default', S('string'), default='"yz"')], has_init=True)
+    out.append({'sd': al, 'kinds': ['codec'], 'params': {'codec': [{'alias': 1}]}})
     inner_w = StructDef('DfInW', [Field(1, 'optional', S('i32'), ptr=True), Field(2, 'optional', S('string'), ptr=True), Field(3, 'optional', S('i64'), ptr=True)])
     ow = StructDef('DfOutW', [Field(1, 'default', ('struct', inner_w, True)), Field(2, 'default', ('list', ('struct', inner_w, True))),
                               Field(3, 'default', ('list', ('struct', inner_w, False))), Field(7, 'optional', S('i32'), ptr=True)])
@@ -195,7 +199,15 @@ def fam_nocopy():
 def fam_unknown():
     u1 = StructDef('UkA', [Field(1, 'default', S('i32')), Field(2, 'optional', S('string'), ptr=True)], has_unknown=True)
     u2 = StructDef('UkB', [Field(1, 'default', ('struct', u1, True)), Field(2, 'default', ('list', ('struct', u1, False))), Field(3, 'default', ('map', S('string'), ('struct', u1, True)))], has_unknown=True)
-    return [{'sd': u1, 'kinds': ['codec']}, {'sd': u2, 'kinds': ['codec'], 'params': {'codec': [{'S': 1, 'L': 1, 'M': 1, 'D': 1}]}}]
+    # holders next to fixed-size fields only (no variable-length / optional / pointer field), with no tagged field at all,
+    # and such structs BY VALUE inside containers: retained bytes are part of the size and of the output in every position
+    u3 = StructDef('UkC', [Field(1, 'default', S('i32')), Field(2, 'required', S('i64')), Field(3, 'default', S('bool'))], has_unknown=True)
+    u4 = StructDef('UkD', [], has_unknown=True)
+    u5 = StructDef('UkE', [Field(1, 'default', ('list', ('struct', u3, False))), Field(2, 'default', ('map', S('i32'), ('struct', u3, False))), Field(3, 'default', ('struct', u4, False)),
+                           Field(4, 'optional', ('struct', u3, True))])
+    sm = {'codec': [{'S': 1, 'L': 1, 'M': 1, 'D': 1}]}
+    return [{'sd': u1, 'kinds': ['codec']}, {'sd': u2, 'kinds': ['codec'], 'params': sm},
+            {'sd': u3, 'kinds': ['codec']}, {'sd': u4, 'kinds': ['codec']}, {'sd': u5, 'kinds': ['codec'], 'params': {'codec': [{'S': 1, 'L': 2, 'M': 1, 'D': 1}]}}]
 
 def fam_ids():
     out = []
